@@ -242,14 +242,25 @@ def run_case(mon, rec, text, model, terminal, names, k, label, world='default'):
     mpulls = msrc.pulls
     mticks = sum(l.calls for l in lams)
     # --- real side
-    rsrc = hooks.CountingSource(None, hard_cap=HARD_CAP, name='$src')
+    # the source reaches the expression either as a context variable (one-shot iterator) or as host DATA handed to
+    # evaluate() - a re-iterable object with __iter__ only, which input conversion has to leave lazy
+    mon.turn = getattr(mon, 'turn', 0) + 1
+    as_data = world == 'default' and mon.turn % 4 == 0
+    rsrc = (hooks.ReiterableSource if as_data else hooks.CountingSource)(None, hard_cap=HARD_CAP, name='$src')
     ctx = (mon.legacy_ctx if world == 'legacy' else mon.ctx).create_child_context()
-    ctx['src'] = rsrc
+    if not as_data:
+        ctx['src'] = rsrc
+    else:
+        rec.count('src.as_host_data')
     mon.ticker.reset()
     rp = {'kind': 'case', 'text': text, 'k': k, 'label': label, 'world': world}
     try:
-        st = (mon.legacy_eng if world == 'legacy' else mon.eng)(text)
-        res = st.evaluate(context=ctx)
+        if as_data:
+            st = mon.eng(text.replace('$src', '$.src'))
+            res = st.evaluate(data={'src': rsrc, 'other': 1}, context=ctx)
+        else:
+            st = (mon.legacy_eng if world == 'legacy' else mon.eng)(text)
+            res = st.evaluate(context=ctx)
         if terminal:
             rval = ('value', res)
         else:
